@@ -209,3 +209,14 @@ def _zero_ref(circ: Dict[str, Any]) -> bool:
                 if ref.get("dur") == 0 or sp.get("dur") == ("fixed", 0.0):
                     return True
     return False
+
+
+def guarded(acc: Acc, fn, *args) -> bool:
+    """Run one case; a RecursionError (relation chains beyond the interpreter's recursion limit) is a resource limit of the
+    library's recursive time evaluation, not a verdict: the case is counted as inconclusive and the shard continues."""
+    try:
+        fn(*args)
+        return True
+    except RecursionError:
+        acc.count("recursion_inconclusive")
+        return False
